@@ -90,3 +90,58 @@ Proof.
   unfold asleep, issue, set_act, sleep_frames, Kop, Do, set_kern, kapply_all. cbn.
   rewrite ?Hd, ?app_nil_r. cbn. rewrite ?Hd, ?app_nil_r. reflexivity.
 Qed.
+
+(** ** [while not cond: wait] leaves the loop only in a state where the condition holds
+
+    [While c body] (Lib.v) re-evaluates [c] on the CURRENT state before every iteration.  For an arbitrary
+    state, activity, body and continuation: if [c] holds the body runs once more; if it does not, the loop is
+    left at once, in the same activation and without any change of state.  So the statement following
+    `await condition` ([cond_await]: `while not self: wait`) executes in a state in which the condition is true:
+    the machine-level "resume implies true" of C08. *)
+Lemma while_head_exits k a m c body st outer :
+  c (ob m) = false ->
+  exec (3 + k) a m (MRun (Dyn (fun o _ => if c o then body ;;; Ret (VCont VU) else Ret (VBreak VU))))
+       {| c_aid := a; c_stack := FLoop (fun _ => Dyn (fun o _ => if c o then body ;;; Ret (VCont VU) else Ret (VBreak VU))) :: st |} outer
+  = exec k a m (MRet VU) {| c_aid := a; c_stack := st |} outer.
+Proof.
+  intros Hc. cbn [Nat.add].
+  erewrite exec_step; [| cbn; rewrite Hc; reflexivity ].
+  mstep. mstep. reflexivity.
+Qed.
+
+Lemma while_head_continues k a m c body st outer :
+  c (ob m) = true ->
+  exec (2 + k) a m (MRun (Dyn (fun o _ => if c o then body ;;; Ret (VCont VU) else Ret (VBreak VU))))
+       {| c_aid := a; c_stack := FLoop (fun _ => Dyn (fun o _ => if c o then body ;;; Ret (VCont VU) else Ret (VBreak VU))) :: st |} outer
+  = exec k a m (MRun body)
+         {| c_aid := a;
+            c_stack := FBind (fun _ => Ret (VCont VU))
+                       :: FLoop (fun _ => Dyn (fun o _ => if c o then body ;;; Ret (VCont VU) else Ret (VBreak VU))) :: st |} outer.
+Proof.
+  intros Hc. cbn [Nat.add].
+  erewrite exec_step; [| cbn; rewrite Hc; reflexivity ].
+  mstep. reflexivity.
+Qed.
+
+(** entering the loop: [While c body] first evaluates the head *)
+Lemma while_enters k a m c body st outer :
+  exec (1 + k) a m (MRun (While c body)) {| c_aid := a; c_stack := st |} outer
+  = exec k a m (MRun (Dyn (fun o _ => if c o then body ;;; Ret (VCont VU) else Ret (VBreak VU))))
+         {| c_aid := a; c_stack := FLoop (fun _ => Dyn (fun o _ => if c o then body ;;; Ret (VCont VU) else Ret (VBreak VU))) :: st |} outer.
+Proof. cbn [Nat.add]. unfold While. mstep. reflexivity. Qed.
+
+(** the only exit: from the head, in a state where the guard is false *)
+Theorem while_exit_only_when_false k a m c body st outer :
+  exec (4 + k) a m (MRun (While c body)) {| c_aid := a; c_stack := st |} outer
+  = if c (ob m)
+    then exec (1 + k) a m (MRun body)
+              {| c_aid := a;
+                 c_stack := FBind (fun _ => Ret (VCont VU))
+                            :: FLoop (fun _ => Dyn (fun o _ => if c o then body ;;; Ret (VCont VU) else Ret (VBreak VU))) :: st |} outer
+    else exec k a m (MRet VU) {| c_aid := a; c_stack := st |} outer.
+Proof.
+  change (4 + k) with (1 + (3 + k)). rewrite while_enters.
+  destruct (c (ob m)) eqn:Hc.
+  - change (3 + k) with (2 + (1 + k)). apply while_head_continues. exact Hc.
+  - apply while_head_exits. exact Hc.
+Qed.
